@@ -55,6 +55,11 @@ func (m *expirationMap[_]) add(key, conflict uint64, expiration time.Time) {
 	bucketNum := storageBucket(expiration)
 	m.Lock()
 	defer m.Unlock()
+	// An item applied late may already belong to a bucket that was cleaned up.
+	// File it in the next bucket to be cleaned, otherwise it is never reclaimed.
+	if bucketNum <= m.lastCleanedBucketNum {
+		bucketNum = m.lastCleanedBucketNum + 1
+	}
 
 	b, ok := m.buckets[bucketNum]
 	if !ok {
@@ -84,6 +89,9 @@ func (m *expirationMap[_]) update(key, conflict uint64, oldExpTime, newExpTime t
 	}
 
 	newBucketNum := storageBucket(newExpTime)
+	if newBucketNum <= m.lastCleanedBucketNum {
+		newBucketNum = m.lastCleanedBucketNum + 1
+	}
 	newBucket, ok := m.buckets[newBucketNum]
 	if !ok {
 		newBucket = make(bucket)
